@@ -2,11 +2,13 @@ package checks
 
 import (
 	"fmt"
+	"net"
 	"sort"
 	"strings"
 	"sync"
 	"time"
 
+	"github.com/datastax/cql-proxy/proxy"
 	"github.com/datastax/go-cassandra-native-protocol/message"
 	"github.com/datastax/go-cassandra-native-protocol/primitive"
 
@@ -49,7 +51,10 @@ type stormCase struct {
 	MaxVersion      int           `json:"max_version,omitempty"`
 	Clients         []stormClient `json:"clients"`
 	Steps           []stormStep   `json:"steps,omitempty"`
-	Warn            bool          `json:"backend_warns,omitempty"` // error answers carry a warning (header flag 0x08; the error code is not at offset 0)
+	// FastIdle: heartbeat 20ms / idle timeout 100ms / refresh window 10ms, so that the steps silence_host and remove_host
+	// make the *proxy* close backend connections (idle timeout, pool of a removed host) while requests are parked on them
+	FastIdle bool `json:"fast_idle,omitempty"`
+	Warn     bool `json:"backend_warns,omitempty"` // error answers carry a warning (header flag 0x08; the error code is not at offset 0)
 }
 
 // sent is one request as sent, with what came back.
@@ -104,6 +109,14 @@ func localFrame(v primitive.ProtocolVersion, stream int16, kind string, token st
 		return wire.Msg(v, false, stream, &message.Query{Query: "USE no_such_keyspace", Options: opts}, "")
 	case "prepare_system":
 		return wire.Msg(v, false, stream, &message.Prepare{Query: "SELECT * FROM system.peers"}, "")
+	case "prepare_system_bad_column":
+		return wire.Msg(v, false, stream, &message.Prepare{Query: "SELECT listen_address, key FROM system.local"}, "")
+	case "prepare_system_json":
+		return wire.Msg(v, false, stream, &message.Prepare{Query: "SELECT JSON * FROM system.local"}, "")
+	case "prepare_system_func":
+		return wire.Msg(v, false, stream, &message.Prepare{Query: "SELECT writetime(key) FROM system.peers"}, "")
+	case "prepare_use":
+		return wire.Msg(v, false, stream, &message.Prepare{Query: "USE ks1"}, "")
 	case "register":
 		return wire.Msg(v, false, stream, &message.Register{EventTypes: []primitive.EventType{primitive.EventTypeTopologyChange, primitive.EventTypeStatusChange}}, "")
 	case "startup_again":
@@ -148,7 +161,14 @@ func runStorm(c *stormCase, rec *evid.Recorder) (*stormResult, *evid.Fail) {
 	if maxV == 0 {
 		maxV = primitive.ProtocolVersion4
 	}
-	e, err := startEnv(envOpts{Hosts: c.Hosts, NumConns: c.Conns, IdempotentGraph: c.IdempotentGraph, Keyspaces: []string{"ks1"}, Version: primitive.ProtocolVersion4, MaxVersion: maxV})
+	eo := envOpts{Hosts: c.Hosts, NumConns: c.Conns, IdempotentGraph: c.IdempotentGraph, Keyspaces: []string{"ks1"}, Version: primitive.ProtocolVersion4, MaxVersion: maxV}
+	if c.FastIdle {
+		eo.HeartBeat, eo.Idle = 20*time.Millisecond, 100*time.Millisecond
+	}
+	e, err := startEnv(eo)
+	if err == nil && c.FastIdle {
+		proxy.VerifSetRefreshWindow(e.Proxy, 10*time.Millisecond)
+	}
 	if err == nil && c.Warn {
 		e.Cluster.WarnOnUnprepared = true
 	}
@@ -329,6 +349,22 @@ func runStorm(c *stormCase, rec *evid.Recorder) (*stormResult, *evid.Fail) {
 			}
 			close(start)
 			wg2.Wait()
+		case "silence_host":
+			// every connection of the host stops answering (no FIN/RST): with FastIdle the proxy gives them up itself
+			for _, cn := range e.Cluster.Host(st.Host % c.Hosts).Conns() {
+				cn.SetSilent(true)
+			}
+			if c.FastIdle {
+				time.Sleep(220 * time.Millisecond)
+			}
+		case "remove_host":
+			// the host leaves the ring (never host 0, the contact point): with FastIdle the proxy closes its pool itself
+			if h := st.Host % c.Hosts; h != 0 && c.FastIdle {
+				e.Cluster.SetMember(h, false)
+				ip := net.ParseIP(e.Cluster.HostIP(h))
+				e.Cluster.Emit(&message.TopologyChangeEvent{ChangeType: primitive.TopologyChangeTypeRemovedNode, Address: &primitive.Inet{Addr: ip, Port: int32(e.Cluster.Port)}}, primitive.EventTypeTopologyChange)
+				time.Sleep(80 * time.Millisecond)
+			}
 		case "wait_reconnect":
 			time.Sleep(40 * time.Millisecond) // lets pools reconnect (reconnect delay is capped at 25ms); only widens the explored states
 		}
